@@ -23,7 +23,8 @@ RULE = (
 REQUIRED_COVER = ["branched_cable_cm_ne_1", "space_order_2", "time_order_1_bwd", "time_order_1_fwd", "time_order_2_cn", "unit_constants", "long_cable", "short_cable",
                   "backend:jaxley.stone", "backend:jaxley.thomas", "backend:jax.sparse"]
 ASSUMPTIONS = [
-    "a finite refinement ladder is evidence of the limit, not the limit; observed orders must lie within +-0.3 (space) / +-0.1 (time) of the nominal order on the last two rungs",
+    "a finite refinement ladder is evidence of the limit, not the limit; observed orders must lie within +-0.3 (space) / +-0.1 (time) of the nominal order on the last two rungs "
+    "and within +-0.5 (space) / +-0.25 (time) on every earlier rung (the coarsest spatial rung has h <= 0.625 lambda, the coarsest time step dt <= tau/4)",
     "analytic solutions: sealed finite cable Green's function, exponential RC relaxation, V = E + I/(g A)",
 ]
 BACKENDS = ["jaxley.stone", "jaxley.thomas", "jax.sparse"]
@@ -150,7 +151,9 @@ def work(item):
         out["cover"] += [f"backend:{backend}", "long_cable" if geom[1] > 1 else "short_cable"]
         if nb > 1 and cm != 1.0:
             out["cover"].append("branched_cable_cm_ne_1")
-        ok = all(1.7 <= o <= 2.3 for o in od[-2:]) and errs[-1] < 2e-3 * peak
+        # every rung, not only the asymptotic end: the coarse rungs are where "one compartment per branch" and similar
+        # boundary sizes live (seeded change S60); on the clean ladders the coarse-rung orders are 1.70..1.97
+        ok = all(1.7 <= o <= 2.3 for o in od[-2:]) and all(1.5 <= o <= 2.5 for o in od) and errs[-1] < 2e-3 * peak
         if ok:
             out["cover"].append("space_order_2")
             out["digests"].append(digest([geom, backend, nb, cm]))
@@ -172,7 +175,7 @@ def work(item):
         out["evals"] += 5
         od = orders(errs)
         nominal = 2.0 if scheme == "crank_nicolson" else 1.0
-        ok = all(abs(o - nominal) <= 0.1 for o in od[-2:])
+        ok = all(abs(o - nominal) <= 0.1 for o in od[-2:]) and all(abs(o - nominal) <= 0.25 for o in od)
         tag = {"bwd_euler": "time_order_1_bwd", "fwd_euler": "time_order_1_fwd", "crank_nicolson": "time_order_2_cn"}[scheme]
         if ok:
             out["cover"].append(tag)
